@@ -13,9 +13,10 @@
 (*          calls that returned Finished, early |-> 1 iff a timeout result *)
 (*          arrived before a full timeout since the last (re)start,        *)
 (*          exited |-> 1 iff Run has returned]                             *)
-(*   act = [op, res, x, y]: Job(x = 1 short timeout, y = 0 live | 1 caller *)
+(*   act = [op, res, x, y]: Job(x unused, y = 0 live | 1 caller          *)
 (*   cancel closed | 2 internal cancel closed), Msg(x = 0 unrelated |      *)
-(*   1 progress | 2 finishes), Timeout, Disconnect, Cancel(x = 1 caller |  *)
+(*   1 progress | 2 finishes), Tick (half a job timeout of virtual time    *)
+(*   passes), Disconnect, Cancel(x = 1 caller |  *)
 (*   2 internal), Quit, QuitDuring(x): quit is closed while the worker is  *)
 (*   handing back a result that nobody takes any more (the dispatcher has  *)
 (*   left): x = 0 quit arrives while the handler of the finishing answer   *)
@@ -25,20 +26,24 @@
 (***************************************************************************)
 EXTENDS Integers, Sequences, FiniteSets
 
-AbsInit == [jobs |-> 0, open |-> 0, disc |-> 0, quit |-> 0, canc |-> 0, finOpen |-> 0]
+\* quiet: half timeouts of virtual time since the open job was handed over or
+\* last made progress.
+AbsInit == [jobs |-> 0, open |-> 0, disc |-> 0, quit |-> 0, canc |-> 0, finOpen |-> 0, quiet |-> 0]
 
 AbsNext(a, act, o2) ==
   CASE act.op = "Job" -> [a EXCEPT !.jobs = @ + 1,
                                    !.open = IF act.y = 0 THEN 1 ELSE 0,
-                                   !.canc = act.y, !.finOpen = 0]
+                                   !.canc = act.y, !.finOpen = 0, !.quiet = 0]
     [] act.op = "Msg" /\ a.open = 1 ->
          [a EXCEPT !.finOpen = IF act.x = 2 THEN 1 ELSE @,
+                   !.quiet = IF act.x = 1 THEN 0 ELSE @,
                    !.open = IF act.res \in {"r0", "r1", "r2", "r3"} THEN 0 ELSE @]
     [] act.op = "Disconnect" -> [a EXCEPT !.disc = 1, !.open = 0]
     [] act.op \in {"Quit", "QuitDuring"} -> [a EXCEPT !.quit = 1, !.open = 0]
     [] act.op = "Cancel" -> [a EXCEPT !.canc = act.x,
                                       !.open = IF act.res = "r3" THEN 0 ELSE @]
-    [] act.op = "Timeout" -> [a EXCEPT !.open = IF act.res = "r1" THEN 0 ELSE @]
+    [] act.op = "Tick" -> [a EXCEPT !.open = IF act.res = "r1" THEN 0 ELSE @,
+                                    !.quiet = IF a.open = 1 THEN @ + 1 ELSE @]
     [] OTHER -> a
 
 Viol(a, o, act, a2, o2) ==
@@ -48,7 +53,7 @@ Viol(a, o, act, a2, o2) ==
       \* does this step end the open job with a result, and with which one?
       want == CASE act.op = "Job" /\ act.y # 0 -> 3
                 [] act.op = "Msg" /\ working /\ act.x = 2 -> 0
-                [] act.op = "Timeout" /\ working -> 1
+                [] act.op = "Tick" /\ working /\ a.quiet >= 1 -> 1
                 [] act.op = "Disconnect" /\ working -> 2
                 [] act.op = "Cancel" /\ working -> 3
                 [] OTHER -> -9
@@ -59,6 +64,10 @@ Viol(a, o, act, a2, o2) ==
   \cup (IF new = 1 /\ last = 0 /\ o2.fin = o.fin THEN {"WorkerSuccessMeansFinished"} ELSE {})
   \cup (IF new = 1 /\ want # -9 /\ last # want THEN {"WorkerResultNamesCause"} ELSE {})
   \cup (IF o2.early = 1 THEN {"WorkerTimeoutAfterQuiet"} ELSE {})
+  \* a job whose peer made no progress for a full timeout yields a timeout
+  \* result then - whatever else the peer sent meanwhile
+  \cup (IF act.op = "Tick" /\ working /\ a.quiet >= 1 /\ ~(new = 1 /\ last = 1)
+        THEN {"WorkerTimeoutWhenQuiet"} ELSE {})
   \cup (IF o2.exited = 1 /\ a2.disc = 0 /\ a2.quit = 0 THEN {"WorkerLeavesOnlyOnDisconnect"} ELSE {})
   \cup (IF o2.exited = 0 /\ (a2.disc = 1 \/ a2.quit = 1) THEN {"WorkerLeavesOnlyOnDisconnect"} ELSE {})
   \cup (IF act.op = "Job" /\ act.y # 0 /\ o2.queued # o.queued THEN {"WorkerNoSendForCanceledJob"} ELSE {})
